@@ -25,6 +25,7 @@ LEVEL_TEXT = ("Pickle with every protocol 0-5, copy.copy, copy.deepcopy and .cop
               "precision of the format for 0-d, size-1, 1-3-d, single-term and multi-term polynomials over fmt, "
               "delimiter, header, footer and comments settings, through str paths, pathlib paths and file objects; files "
               "without the numpoly header must load exactly as numpy.loadtxt loads them.")
+FUZZ_RUNS = {"thorough": 4000}  # atheris/libFuzzer campaign over the same strategy and oracle
 RULE = (
     "polynomial arrays (0-d, size-1, 1-3-d, 0-5 terms incl. single-term, int and float coefficients, 1-4 names incl. "
     "q10/q12, 20% built with retained zero terms / unused names, 15% strided .T views) x one of: pickle protocol 0-5, "
